@@ -66,11 +66,31 @@ def jobs(pid, tier):
         if q:
             return [vrt('C01', [r'once_counted_(val-val|val-exc|exc-drop|val-mvdie)_(wait|coro|hasv)', r'once_(int|ref)_val-exc_wait'], bound=2, workers=2, **R),
                     vrt('C02', [r'wake1_.*_(val|exc|async)', r'wake2_(coro-poll|wait-cb|hasv-sync|coro-coro|cb-cb)_(val|exc|drop|async)'], bound=2, workers=2, **R),
-                    vrt('C07', [r'mx2_.*_(dis-dis|dtor-awt|awt-move|move-move)_r1', r'mx3_f[012]_r[03]'], bound=2, workers=4, **R)]
+                    vrt('C07', [r'mx2_.*_(dis-dis|dtor-awt|awt-move|move-move)_r1', r'mx3_f[012]_r[03]'], bound=2, workers=4, **R),
+                    vrt('C09', [r'q_p1_c2_.*', r'q_p2_c1_(block|coro)', r'lq_l1_p2_.*'], bound=2, workers=4, **R),
+                    vrt('C11', [r'pool_w[12]_(coawait|runfn|runfnbig|detached|detachedbig)_(stop|selfstop)', r'pool_w2_(coawait-runfn|runfnbig-detached)_stop'], bound=2, workers=2, **R),
+                    vrt('C12', [r'sch_(thread|pool)_(5-10|10-5)(_cancel0)?'], bound=2, workers=4, **R),
+                    vrt('C16', [r'pub1_.*', r'pub2_all_(coro-block|coro-poll)_pub-batch2-close'], bound=2, workers=4, **R),
+                    vrt('C17', [r'sf1_.*', r'sf2_promfn_val_(wait-coro|coro-drop|copydrop-poll)_.*'], bound=2, workers=2, **R),
+                    vrt('C19', [r'mtsafe_t2_.*'], bound=2, workers=4, **R),
+                    vrt('C04', [r'async_.*_d[12](_throw)?'], bound=2, workers=2, **R),
+                    vrt('C13', [r'gen_.*', r'aggr_(next|callwait)'], bound=2, workers=4, **R),
+                    vrt('C15', [r'sig_.*'], bound=2, workers=4, **R),
+                    vrt('C18', [r'cb_.*'], unbounded=True, workers=2, **R)]
         return [vrt('C01', [r'once_[a-z]+_[a-z]+-[a-z]+_.*'], bound=3, workers=4, **R),
                 vrt('C02', [r'wake[12]_.*'], bound=3, workers=4, **R),
                 vrt('C02', [r'wake3_.*'], bound=2, workers=16, **R),
-                vrt('C07', [r'mx[23]_.*'], bound=3, workers=8, **R)]
+                vrt('C07', [r'mx[23]_.*'], bound=3, workers=8, **R),
+                vrt('C09', [r'q_p1_.*', r'q_p2_c1_.*', r'lq_.*'], bound=3, workers=8, **R),
+                vrt('C11', [r'pool_w[12]_(coawait|runfn|runfnbig|detached|detachedbig)(-(coawait|runfn|runfnbig|detached|detachedbig))?_(stop|dtor|selfstop)'], bound=2, workers=8, **R),
+                vrt('C12', [r'sch_.*'], bound=2, workers=8, **R),
+                vrt('C16', [r'pub.*'], bound=2, workers=8, **R),
+                vrt('C17', [r'sf.*'], bound=2, workers=8, **R),
+                vrt('C19', [r'mtsafe_.*'], bound=3, workers=8, **R),
+                vrt('C04', [r'async_.*'], bound=3, workers=4, **R),
+                vrt('C13', [r'.*'], bound=3, workers=8, **R),
+                vrt('C15', [r'sig_.*'], bound=3, workers=8, **R),
+                vrt('C18', [r'cb_.*'], unbounded=True, workers=2, **R)]
     if pid == 'C17':
         if q:
             return [vrt('C17', [r'sf1_.*', r'sf_copy_before_init'], bound=2, workers=2),
@@ -89,17 +109,25 @@ def jobs(pid, tier):
                 vrt('C11', [rf'pool_w3_{OKK}-{OKK}_(stop|selfstop)'], bound=1, workers=8),
                 vrt('C11', [rf'pool_w[12]_{LOST}_(stop|dtor|selfstop)', rf'pool_w1_{OKK}-{LOST}_stop'], bound=2, workers=4, max_viol=10000000)]
     if pid == 'C04':
-        return [seq('C04')]
+        if q:
+            return [seq('C04'), vrt('C04', [r'async_.*'], bound=2, workers=2)]
+        return [seq('C04'), vrt('C04', [r'async_.*'], unbounded=True, workers=4)]
     if pid == 'C05':
         return [seq('C05')]
     if pid == 'C13':
-        return [seq('C13')]
+        if q:
+            return [seq('C13'), vrt('C13', [r'gen_.*'], bound=2, workers=2)]
+        return [seq('C13'), vrt('C13', [r'gen_.*'], unbounded=True, workers=4)]
     if pid == 'C14':
-        return [seq('C14')]
+        if q:
+            return [seq('C14'), vrt('C13', [r'aggr_.*'], bound=2, workers=4)]
+        return [seq('C14'), vrt('C13', [r'aggr_.*'], bound=3, workers=8)]
     if pid == 'C15':
-        return [seq('C15')]
+        if q:
+            return [seq('C15'), vrt('C15', [r'sig_.*'], bound=2, workers=4)]
+        return [seq('C15'), vrt('C15', [r'sig_l1_.*'], unbounded=True, workers=4), vrt('C15', [r'sig_l2_.*'], bound=3, workers=8)]
     if pid == 'C18':
-        return [seq('C18')]
+        return [seq('C18'), vrt('C18', [r'cb_.*'], unbounded=True, workers=2)]
     if pid == 'C19':
         if q:
             return [seq('C19'), vrt('C19', [r'mtsafe_t2_.*', r'mtsafe_t3_r1_.*'], bound=2, workers=4, race_oracle=True)]
